@@ -455,6 +455,21 @@ static void sc_mem_mmap(void) {
 	(void)p_mem_munmap(NULL, 4096, &err); p_error_free(err);
 }
 
+/* a buffer opened on a segment that exists under its name but is too small to be a buffer: the call fails, nothing may stay behind */
+static void sc_shmbuffer_small_segment(void) {
+	const char *name = reg_name(1, "%s-tiny", uniq); PError *err = NULL; PShm *tiny; PShmBuffer *b; int sz;
+	for (sz = 1; sz <= 17; sz += 8) {
+		tiny = p_shm_new(name, (psize)sz, P_SHM_ACCESS_READWRITE, &err); p_error_free(err); err = NULL;
+		if (!tiny) return;
+		b = p_shm_buffer_new(name, 100, &err); p_error_free(err); err = NULL;
+		if (b) { DAMAGE("p_shm_buffer_new accepted a %d byte segment", sz); p_shm_buffer_free(b); }
+		b = p_shm_buffer_new(name, 0, &err); p_error_free(err); err = NULL;
+		if (b) p_shm_buffer_free(b);
+		if (p_shm_get_size(tiny) != (psize)sz) DAMAGE("the small segment reports size %zu after a failed buffer open", (size_t)p_shm_get_size(tiny));
+		p_shm_take_ownership(tiny); p_shm_free(tiny);
+	}
+}
+
 static int in_reinit;
 static void sc_init_shutdown(void) { PMemVTable vt = va_vtable(); in_reinit = 1; p_libsys_shutdown(); p_libsys_init_full(&vt); }
 
@@ -464,7 +479,7 @@ static struct { const char *name; void (*fn)(void); } SC[] = {
 	{ "sockaddr", sc_sockaddr }, { "socket_tcp", sc_socket_tcp }, { "socket_udp", sc_socket_udp }, { "thread", sc_thread }, { "thread_foreign", sc_thread_foreign },
 	{ "locks", sc_locks }, { "profiler", sc_profiler }, { "libloader", sc_libloader }, { "file", sc_file },
 	{ "sock_refused", sc_sock_refused }, { "sock_timeouts", sc_sock_timeouts }, { "sock_bind_used", sc_sock_bind_used }, { "ipc_multi", sc_ipc_multi }, { "threads_tls", sc_threads_tls },
-	{ "sock_fromfd", sc_sock_fromfd }, { "mem_mmap", sc_mem_mmap },
+	{ "sock_fromfd", sc_sock_fromfd }, { "mem_mmap", sc_mem_mmap }, { "shmbuffer_small_segment", sc_shmbuffer_small_segment },
 	{ "init_shutdown", sc_init_shutdown },
 };
 #define NSC ((int)(sizeof SC / sizeof SC[0]))
